@@ -177,6 +177,10 @@ static void do_rt(int argc, char** a, int with_recon)
 	int es = elem_size(ty);
 	void* copy = malloc(n * es + 8); memcpy(copy, data, n * es);
 	size_t outSize = 0;
+	{ /* what the request means, printed before the library is entered so that it survives a crash (partial line) */
+		double mn0, mx0; double e0 = n ? effective_bound(ty, copy, n, mode, absb, rel, &mn0, &mx0) : 0; double am = fabs(mn0) > fabs(mx0) ? fabs(mn0) : fabs(mx0);
+		printf("pe=%" PRIx64 " pamax=%" PRIx64 " ", bits_of_dbl(e0), bits_of_dbl(n ? am : 0)); fflush(R);
+	}
 	unsigned char* bytes = SZ_compress_args(ty, data, &outSize, mode, absb, rel, pwr, cr[0], cr[1], cr[2], cr[3], cr[4]);
 	int input_modified = memcmp(copy, data, n * es) != 0;
 	if (bytes == NULL) { printf("st=null out=%zx n=%zx\n", outSize, n); free(data); free(copy); return; }
